@@ -86,6 +86,11 @@ class MerkleTree:
         return len(self.nodes[self.current_depth + 1]) > self.current_index * 2 + 1
 
     def populate_tree(self, flag_bits, hashes):
+        # every node of the tree is a 32-byte hash: with other lengths the
+        # concatenation left + right could be split in more than one way
+        for h in hashes:
+            if len(h) != 32:
+                raise ValueError("merkle proof hashes must be 32 bytes")
         # populate until we have the root
         while self.root() is None:
             # if we are a leaf, we know this position's hash
